@@ -45,6 +45,68 @@ REDUCED_THETA = {"Rz": (0.3,), "A2": (-1.1,)}
 RANK = {g: i for i, g in enumerate(("X", "H", "I_X", "N1", "Rz", "CX", "A2", "A3"))}
 
 
+# ------------------------------------------------------------------ alternative native table
+# Same gate names and signatures as mc/gates.py, different matrices behind every name: anything
+# the emulator keeps per gate *name/signature* across circuits (instead of per table) shows.
+def _generic(dim, seed):
+    rng = np.random.RandomState(seed)
+    m = rng.normal(size=(dim, dim)) + 1j * rng.normal(size=(dim, dim))
+    q, r = np.linalg.qr(m)
+    d = np.diag(r)
+    return q * (d / np.abs(d))
+
+
+_B1, _B2, _B3, _BG = _generic(4, 21), _generic(4, 22), _generic(8, 23), _generic(2, 24)
+
+
+def _alt_CX():
+    # control and target exchanged: bit 1 of the matrix index (second argument) controls
+    m = np.zeros((4, 4), dtype=complex)
+    m[0, 0] = m[1, 1] = 1
+    m[2, 3] = m[3, 2] = 1
+    return m
+
+
+def _alt_A2(theta):
+    return _B1 @ np.diag(np.exp(-1j * theta * np.arange(2, 6))) @ _B2
+
+
+ALT_UNITARY = {
+    "X": gates.u_H,
+    "H": gates.u_X,
+    "G1": lambda: _BG.copy(),
+    "Rz": gates.u_Rx,
+    "Rx": gates.u_Rz,
+    "CX": _alt_CX,
+    "A2": _alt_A2,
+    "A3": lambda: _B3.copy(),
+}
+ALT_SIGS = {}
+for _n, (_kinds, _fn, _busy) in gates.SIGS.items():
+    ALT_SIGS[_n] = (_kinds, ALT_UNITARY[_n] if _fn is not None else None, _busy)
+assert all(gates.SIGS[_n][1] is not None for _n in ALT_UNITARY)
+
+
+def alt_native_gates():
+    """A fresh native table with the signatures of gates.native_gates() and the ALT matrices."""
+    kind = {"q": gates.Q, "f": gates.F}
+    table = {}
+    for name, (kinds, fn, busy) in ALT_SIGS.items():
+        if name in gates.IDLE:
+            continue
+        if busy:
+            table[name] = impl.BusyGateDefinition(name)
+            continue
+        params = [impl.Parameter("a%d" % i, kind[k]) for i, k in enumerate(kinds)]
+        table[name] = impl.GateDefinition(name, params, ideal_unitary=fn) if fn else impl.GateDefinition(name, params)
+    return impl.add_idle_gates(table)
+
+
+TABLES = {"normal": (gates.native_gates, None), "alt": (alt_native_gates, ALT_SIGS)}
+TABLE_RUNS = {"alttable": ("normal", "alt"), "alttable-rev": ("alt", "normal")}
+DECOY_GATE = ("G1", (0,), ())  # generic one-qubit gate: G1 e_0 is never e_0
+
+
 def _nq(name):
     return sum(1 for k in gates.SIGS[name][0] if k == "q")
 
@@ -341,7 +403,7 @@ def family(emb):
 def embeddings(seq):
     """Names of the embeddings that apply to a gate sequence."""
     L = len(seq)
-    out = ["plain"]
+    out = ["plain", "reprepare", "reprepare-loop"]
     if L == 0:
         return out
     out += ["loop%dat%d" % (c, i) for i in range(L) for c in LOOP_COUNTS]
@@ -355,6 +417,7 @@ def embeddings(seq):
             out += ["par%d" % i, "rpar%d" % i]
     out.append("sub")
     out.append("secloop")
+    out += list(TABLE_RUNS)
     return out
 
 
@@ -457,7 +520,16 @@ def build(case):
                 a, b = b, a
             stmts[i:i + 2] = [("par", (a, b))]
 
-    if fam == "sub":
+    P, M = ("gate", "prepare_all", ()), ("gate", "measure_all", ())
+    if fam in ("reprepare", "reprepare-loop"):
+        # gates before a repeated prepare_all are discarded: a generic decoy (and the first gate of
+        # the sequence once more) sit between the first prepare_all and the one that counts
+        decoys = (_plain_gate(DECOY_GATE),) + tuple(stmts[:1])
+        if fam == "reprepare":
+            E = (P,) + decoys + (P,) + tuple(stmts) + (M,)
+        else:
+            E = (P,) + decoys + (("loop", 2, ("seq", (P,) + tuple(stmts) + (M,))),)
+    elif fam == "sub":
         E = (("sub", None, tuple(stmts)),)
     elif fam == "secloop":
         # the whole prepare/measure section repeated by a loop: one subcircuit, visited twice
@@ -529,7 +601,7 @@ class C03(Check):
         for n, seq in self.sequences(tier):
             for emb in embeddings(seq):
                 yield (n, emb, 0, seq)
-                if seq:
+                if seq and emb not in TABLE_RUNS:
                     yield (n, emb, 1, seq)
 
     # ------------------------------------------------------------------ presentation
@@ -661,10 +733,30 @@ class C03(Check):
         n, emb, pos, seq = case
         fam = family(emb)
         prog, override, route, GE, GW, kE = self._model(case)
-        refE = sim.run_sequence(n, GE)
-        refW = sim.run_sequence(n, GW)
         text = render.text(prog)
         ident = describe_program(prog, override, route)
+        fails, verdict = [], "ok"
+        # the table embeddings emulate the same program under two native tables, one after the other
+        for which in TABLE_RUNS.get(fam, ("normal",)):
+            if ctx is not None:
+                ctx.trace()
+            fails, verdict = self._one_run(case, which, text, ident, override, route, GE, GW, kE, ctx)
+            if fails:
+                if fam in TABLE_RUNS:
+                    fails = [(c, "with the %s native table (tables used in this order: %s): %s" % (
+                        which, ", ".join(TABLE_RUNS[fam]), d)) for c, d in fails]
+                break
+        if ctx is not None:
+            ctx.outcome("%s:%s" % (fam, verdict))
+        return fails
+
+    def _one_run(self, case, which, text, ident, override, route, GE, GW, kE, ctx):
+        """One emulation of the program under the native table `which` -> (failures, verdict class)"""
+        n, emb, pos, seq = case
+        fam = family(emb)
+        make_table, sigs = TABLES[which]
+        refE = sim.run_sequence(n, GE, sigs=sigs)
+        refW = sim.run_sequence(n, GW, sigs=sigs)
         e0 = sim.zero_state(n)
         trivial = bool(np.allclose(refE, e0, atol=1e-12))
         if ctx is not None:
@@ -672,22 +764,17 @@ class C03(Check):
             ctx.state((n, sim.key(refW)))
             ctx.transition(len(GE) + len(GW))
             if not trivial:
-                ctx.nontriv(ident)
-            ctx.trace()
+                ctx.nontriv(ident if which == "normal" else ident + " ## " + which)
         fails = []
 
-        def verdict(v):
-            if ctx is not None:
-                ctx.outcome("%s:%s" % (fam, v))
-
-        ngates = len(GE) + len(GW) + 4
+        ngates = len(GE) + len(GW) + 8
         budget = 300000 + 2000 * ngates * 4 ** n
         try:
             with fuel(budget):
                 if route == "parse":
-                    c = impl.parse(text, inject_pulses=gates.native_gates(), override_dict=dict(override), expand_let=True)
+                    c = impl.parse(text, inject_pulses=make_table(), override_dict=dict(override), expand_let=True)
                 else:
-                    c = impl.parse(text, inject_pulses=gates.native_gates())
+                    c = impl.parse(text, inject_pulses=make_table())
                     if route == "fill_in_let":
                         c = impl.fill_in_let(c, dict(override))
                 res = impl.run_jaqal_circuit(c)
@@ -695,27 +782,22 @@ class C03(Check):
                 got = [np.array(s.state_vector, dtype=complex) for s in subs]
                 probs = [np.array(s.simulated_probability_by_int, dtype=float) for s in subs]
         except OutOfFuel:
-            verdict("non-termination")
-            return [("non-termination/" + fam, "no result within %d steps" % budget)]
+            return [("non-termination/" + fam, "no result within %d steps" % budget)], "non-termination"
         except impl.JaqalError as e:
-            verdict("rejected")
-            return [("rejected/" + fam, "valid program rejected with JaqalError: %s" % e)]
+            return [("rejected/" + fam, "valid program rejected with JaqalError: %s" % e)], "rejected"
         except Exception as e:  # noqa: BLE001
-            verdict("crash")
-            return [("crash/" + fam, "%s: %s" % (type(e).__name__, e))]
+            return [("crash/" + fam, "%s: %s" % (type(e).__name__, e))], "crash"
 
         if len(subs) != 2:
-            verdict("subcircuit-count")
-            return [("subcircuit-count/" + fam, "2 prepare/measure sections, emulator reports %d subcircuits" % len(subs))]
+            return [("subcircuit-count/" + fam, "2 prepare/measure sections, emulator reports %d subcircuits" % len(subs))], "subcircuit-count"
         gotE, gotW = got[kE], got[1 - kE]
         dim = 2 ** n
         if gotE.shape != (dim,) or gotW.shape != (dim,):
-            verdict("shape")
-            return [("shape/" + fam, "state vectors of shape %r / %r for %d qubits" % (gotE.shape, gotW.shape, n))]
+            return [("shape/" + fam, "state vectors of shape %r / %r for %d qubits" % (gotE.shape, gotW.shape, n))], "shape"
 
         # differential chain from the emulator's own witness state
         if GE:
-            chained = sim.apply(gotW, GE[-1][0], GE[-1][1], GE[-1][2], n)
+            chained = sim.apply(gotW, GE[-1][0], GE[-1][1], GE[-1][2], n, sigs)
             chain_ok = bool(np.max(np.abs(chained - gotE)) <= 2 * TOL)
             chain_txt = "F(last gate) applied to the emulator's own witness state %s the emulator's state" % (
                 "reproduces" if chain_ok else "does NOT reproduce")
@@ -727,7 +809,7 @@ class C03(Check):
         if not okE:
             fails.append(("state/" + fam, "subcircuit %d (%s): required %s, emulator %s; %s" % (
                 kE, " ; ".join(_gtxt(g) for g in GE) or "no gates", _fmt(refE), _fmt(gotE), chain_txt)))
-        if not okW and (fam == "plain" and pos == 0 and not GW or not self._plain_fails(n, GW)):
+        if not okW and (fam == "plain" and pos == 0 and not GW or which != "normal" or not self._plain_fails(n, GW)):
             # only a finding of its own when the same witness passes as a program of its own
             # (otherwise the plain case reports it)
             fails.append(("neighbour-state/" + fam, "plainly written subcircuit %d (%s) beside the embedded one: required %s, emulator %s" % (
@@ -744,16 +826,14 @@ class C03(Check):
                     k, np.round(p, 6).tolist(), np.round(np.abs(r) ** 2, 6).tolist())))
                 break
         if fails:
-            verdict(fails[0][0].split("/")[0] + "-mismatch")
-        elif trivial:
-            verdict("ok-unchanged")
-        elif GE and sim.full_matrix(GE[-1][0], GE[-1][1], GE[-1][2], n) is None:
-            verdict("ok-noaction-last")
-        elif np.max(np.abs(refE)) > 1 - 1e-9:
-            verdict("ok-basis")
-        else:
-            verdict("ok-superposed")
-        return fails
+            return fails, fails[0][0].split("/")[0] + "-mismatch"
+        if trivial:
+            return fails, "ok-unchanged"
+        if GE and sim.full_matrix(GE[-1][0], GE[-1][1], GE[-1][2], n, sigs) is None:
+            return fails, "ok-noaction-last"
+        if np.max(np.abs(refE)) > 1 - 1e-9:
+            return fails, "ok-basis"
+        return fails, "ok-superposed"
 
     def run_case(self, case, ctx):
         fails = self.evaluate(case, ctx)
